@@ -175,37 +175,47 @@ def cases_fix(tier):
                     yield "N%d/%s/%s/%s" % (N, "".join(map(str, ptypes)), "transform" if tr else "plain", "scalar-mag" if bcast else "vector-mag"), {
                         "N": N, "ptypes": list(ptypes), "transform": tr, "bcast": bcast, "infinite": False}
     yield "N1/relative/infinite-bound", {"N": 1, "ptypes": [RELATIVE], "transform": False, "bcast": False, "infinite": True}
+    # a relative perturbation on a *fixed* variable with an infinite bound: must be rejected as well (or yield a finite magnitude),
+    # otherwise 0 * inf puts NaN into the fixed column of every perturbed vector (C09)
+    for ptypes in ([ABSOLUTE, RELATIVE], [RELATIVE, RELATIVE]):
+        yield "N2/%s/infinite-bound-on-fixed-variable" % "".join(map(str, ptypes)), {"N": 2, "ptypes": ptypes, "transform": False, "bcast": False,
+                                                                                  "infinite": [False, True], "mask": [True, False]}
 
 
 def scn_fix(T, case):
+    PFX = case.get("prefix", "C10")
     N = case["N"]
     f = T.func("ropt.config.enopt._gradient_config", "GradientConfig.fix_perturbations", also=("ropt.config.utils",))
     m = T.real("m", (1,) if case["bcast"] else (N,))
     lb = T.real("lb", (N,))
-    ub = T.real("ub", (N,), kinds=np.array(["+inf"] * N, dtype=object) if case["infinite"] else None)
+    inf = case["infinite"] if isinstance(case["infinite"], list) else [case["infinite"]] * N
+    ub = T.real("ub", (N,), kinds=np.array(["+inf" if f else "fin" for f in inf], dtype=object) if any(inf) else None)
     T.assume(T.all(lb <= ub))
     ptypes = np.array(case["ptypes"], dtype=np.ubyte)
     if case["bcast"] and len(set(case["ptypes"])) > 1:
         pass
     me = _FakeGradient(m, np.array([MIRROR], dtype=np.ubyte), ptypes)
-    variables = types.SimpleNamespace(initial_values=np.zeros(N), lower_bounds=lb, upper_bounds=ub)
+    variables = types.SimpleNamespace(initial_values=np.zeros(N), lower_bounds=lb, upper_bounds=ub, types=None,
+                                      mask=None if case.get("mask") is None else np.array(case["mask"], dtype=bool))
+    bad = any(f and t == RELATIVE for f, t in zip(inf, case["ptypes"]))
     k = T.real("k", (N,), lo=0.001) if case["transform"] else None
     transforms = types.SimpleNamespace(variables=_Scale(k)) if case["transform"] else None
     try:
         f(me, variables, transforms)
     except ValueError:
-        T.prove("C10.fix_perturbations.rejects_only_relative_with_infinite_bounds", case["infinite"] and RELATIVE in case["ptypes"])
+        T.prove(PFX + ".fix_perturbations.rejects_only_relative_with_infinite_bounds", bad)
         return
-    T.prove("C10.fix_perturbations.relative_with_infinite_bounds_rejected", not (case["infinite"] and RELATIVE in case["ptypes"]))
+    T.prove(PFX + ".fix_perturbations.relative_with_infinite_bounds_rejected", not bad)
     out = me.updated["perturbation_magnitudes"]
-    T.prove("C10.fix_perturbations.shape", tuple(out.shape) == (N,))
+    T.prove(PFX + ".fix_perturbations.magnitudes_are_finite", T.all(T.np.isfinite(out)))
+    T.prove(PFX + ".fix_perturbations.shape", tuple(out.shape) == (N,))
     for i in range(N):
         mi = m[0] if case["bcast"] else m[i]
         if case["ptypes"][i] == RELATIVE:
-            T.prove("C10.fix_perturbations.relative_is_fraction_of_range", T.same(out[i], (ub[i] - lb[i]) * mi))
+            T.prove(PFX + ".fix_perturbations.relative_is_fraction_of_range", T.same(out[i], (ub[i] - lb[i]) * mi))
         else:
-            T.prove("C10.fix_perturbations.absolute_is_configured_value", T.same(out[i], mi * k[i] if case["transform"] else mi))
-    T.prove("C10.fix_perturbations.boundary_types_broadcast", tuple(np.shape(me.updated["boundary_types"])) == (N,))
+            T.prove(PFX + ".fix_perturbations.absolute_is_configured_value", T.same(out[i], mi * k[i] if case["transform"] else mi))
+    T.prove(PFX + ".fix_perturbations.boundary_types_broadcast", tuple(np.shape(me.updated["boundary_types"])) == (N,))
 
 
 SCENARIOS = [
